@@ -697,8 +697,9 @@ THROWING_CALLS = ("std::stod", "std::stoi", "std::stol", "std::stoul", "std::sto
 class R5:
     """Exceptions are contained: the hosts of the library do not catch."""
     rid = "C10-R5"
-    text = ("every explicit throw and every call of a throwing standard conversion (std::sto*, .at()) is enclosed -- "
-            "lexically or in every caller up the call graph -- by a try whose handler catches it and reports through cvm::error")
+    text = ("every explicit throw and every call of a throwing standard function (std::sto*, .at(), substr(pos, ..) with a "
+            "positive literal pos that no dominating test of the string's size covers) is enclosed -- lexically or in "
+            "every caller up the call graph -- by a try whose handler catches it and reports through cvm::error")
 
     def __init__(self, F, rep, rid=None, only_funcs=None):
         self.F, self.rep = F, rep
@@ -768,6 +769,27 @@ class R5:
                     kind = n["cq"]
                 elif n["k"] == "CXXMemberCallExpr" and X.callee_name(n) == "at" and "std::" in n.get("rc", ""):
                     kind = "at()"
+                elif n["k"] == "CXXMemberCallExpr" and X.callee_name(n) == "substr" and "basic_string" in n.get("rc", "") and X.call_args(n):
+                    pos = C._lit(X.call_args(n)[0])
+                    if pos is not None and pos > 0 and X.receiver(n) is not None:
+                        # throws std::out_of_range when pos > size(): fine if a size test dominates the call
+                        rk = X.key(X.receiver(n), f, X.const_locals(f))
+                        facts, _ = C.guard_facts(f, n, X.const_locals(f))
+                        sizes = ("%s.size()" % rk, "%s.length()" % rk)
+                        covered = False
+                        for t in facts:
+                            if t[0] == "cmp" and t[2] in sizes:
+                                try:
+                                    lim = float(t[3])
+                                except ValueError:
+                                    continue
+                                if (t[1] == ">=" and lim >= pos) or (t[1] == ">" and lim >= pos - 1) or (t[1] == "==" and lim >= pos):
+                                    covered = True
+                        if not covered:
+                            kind = "substr(%d, ..)" % pos
+                        else:
+                            res["%s|substr(%d, ..)|guarded" % (f.q, pos)] = (
+                                True, f.loc(n), "substr(%d, ..) on `%s` is dominated by a test of its size" % (pos, X.re_strip(rk)), "", f.q)
                 if not kind:
                     continue
                 why = self.contained(f, n)
@@ -784,7 +806,41 @@ class R5:
             rep.add(self.rid, key, loc, what, ok, detail=detail, func=fq)
 
 
+def r6(F, rep):
+    """Scratch configuration text must not survive a rejected configuration."""
+    rep.rule("C10-R6", "a rejected configuration leaves nothing behind for the next one: every string member of colvarmodule that "
+                       "parse_config() consumes and clears on its success path (auto-generated configuration text appended by "
+                       "the parsers it calls) is also cleared unconditionally before the first parser runs, so an early error "
+                       "return cannot leak it into the next parse_config() call")
+    f = F.one("colvarmodule::parse_config")
+    clears = {}
+    for c in X.calls(f):
+        if c["k"] == "CXXMemberCallExpr" and X.callee_name(c) == "clear" and X.receiver(c) is not None:
+            r = X.strip(X.receiver(c))
+            if r["k"] == "MemberExpr" and r.get("dk") == "Field" and X.kids(r) and X.strip(X.kids(r)[0])["k"] == "CXXThisExpr":
+                clears.setdefault(r["n"], []).append(c)
+    parsers = [c for c in X.calls(f) if c.get("cq", "").startswith("colvarmodule::parse_") and c.get("cq") != f.q]
+    if not parsers:
+        raise AnalysisBroken("parse_config: calls of the parsers not found")
+    # members that are also appended to outside parse_config (by the parsers)
+    n = 0
+    for m, cs in sorted(clears.items()):
+        appended = [g.q for g in F.funcs.values() if "/src/" in g.file and g.q != f.q and any(
+            (w["k"] == "CXXOperatorCallExpr" and w.get("op") == "+=" or (w["k"] == "CXXMemberCallExpr" and X.callee_name(w) in ("append", "push_back")))
+            and X.mentions(t, lambda y: y["k"] == "MemberExpr" and y.get("q") == "colvarmodule::" + m) for w, t in lvalue_writes(g))]
+        if not appended:
+            continue
+        n += 1
+        entry = [c for c in cs if not f.cfg.real_guards(c) and all(f.cfg.dominates(c, p) for p in parsers)]
+        rep.add("C10-R6", "parse_config|%s" % m, f.loc(cs[0]), "`%s` (appended to by %s) is cleared before any parser runs: %s" % (
+            m, sorted(set(appended))[:3], bool(entry)), bool(entry),
+            detail="text generated while parsing a configuration that was then rejected would be parsed with the next configuration", func=f.q)
+    if n < 1:
+        raise AnalysisBroken("parse_config: no consumed-and-cleared scratch member found (extra_conf expected)")
+
+
 def run(F, rep, tier):
+    r6(F, rep)
     R1(F, rep).run()
     R2(F, rep).run()
     R5(F, rep).run()
